@@ -406,7 +406,8 @@ def judge(case, res):
     if "crash" in res:
         return ("crash", "child died with rc=%s on this model: %s" % (res["crash"], res.get("stderr", "")[-200:]))
     if "exc" in res:
-        return ("harness", "child handler raised %s: %s" % (res["exc"], res.get("msg")))
+        # the observation of a returned model raised: the real code misbehaves on this input
+        return ("observation-raises", "observing the returned models raised %s: %s" % (res["exc"], res.get("msg")))
     if "fresh_exc" in res:
         if res.get("first_exc") != res["fresh_exc"]:
             return ("exception-differs", "fresh compile raises %s but the caching call %s"
@@ -541,7 +542,17 @@ def encode(case, res):
         odur = cq_list([cq_list([cq_V(da[t][1][0]) for da in loaded["delay_arguments"]]) for t in range(2)])
     else:
         oddep, dpts, odur = "[]", "[[]; []]", "[[]; []]"
-    return "(%s, %s, %s, %s, (%s, %s, %s))" % (model, vals, odep, cq_list(oattrs), oddep, dpts, odur)
+    def stat(v):
+        return "(%s, (%s, %s), %s, %s)" % (cq_nat(tok(v["name"])), cq_nat(v["shape"][0]), cq_nat(v["shape"][1]),
+                                           cq_nat(tok(v["ptype"])), cq_nat(tok(v["aliases"])))
+
+    ostat = cq_list([cq_list([stat(v) for v in loaded[cat]]) for cat in META_CATS])
+    oder = cq_list([stat(v) for v in loaded["der_states"]])
+    otoks = "(%s, %s, %s, %s)" % (cq_nat(tok(loaded["outputs"])), cq_nat(tok(loaded["delay_states"])),
+                                  cq_nat(tok([loaded["string_parameters"], loaded["string_constants"]])),
+                                  cq_nat(tok(loaded["alias_relation"])))
+    return "(%s, %s, %s, %s, (%s, %s, %s), (%s, %s, %s))" % (model, vals, odep, cq_list(oattrs), oddep, dpts, odur,
+                                                             ostat, oder, otoks)
 
 
 # ---------------------------------------------------------------------------
@@ -561,14 +572,14 @@ def run_parallel(ctx, cases, workers=4, timeout=1500):
 def build_cases(ctx):
     cases = [{"name": "M", "text": t, "opts": o, "mode": "cache", "origin": "directed:" + n} for n, o, t in DIRECTED]
     cases += corpus_cases()
-    n_gen = ctx.scaled(44, 420)
+    n_gen = ctx.scaled(36, 1000)
     for i in range(n_gen):
         opts = dict(OPTION_SETS[i % len(OPTION_SETS)] if ctx.rng.random() < 0.8 else ctx.rng.choice(OPTION_SETS))
         text, feats = gen_model(ctx.rng, opts)
         cases.append({"name": "M", "text": text, "opts": opts, "mode": "cache", "origin": "generated", "features": feats})
-    n_cg = ctx.scaled(0, 3)
+    n_cg = ctx.scaled(0, 4)
     for i in range(n_cg):
-        n, o, t = DIRECTED[[2, 5, 4][i % 3]]
+        n, o, t = DIRECTED[[2, 5, 4, 0][i % 4]]
         cases.append({"name": "M", "text": t, "opts": o, "mode": "codegen", "origin": "directed-codegen:" + n})
     return cases
 
@@ -668,5 +679,5 @@ def replay(ctx, path):
         return 1
     res = core.run_child(ctx, "c19", [case], timeout=900)[0]
     v = judge(case, res)
-    print("replay:", ("[%s] %s" % v) if v else "property holds on this model")
+    print("replay:", ("[%s] %s" % v).replace("\n", " ") if v else "property holds on this model")
     return 1 if v else 0
